@@ -114,15 +114,28 @@ func (ts *Timers) Add(ctx context.Context, id string, message interface{}, in ti
 
 			// Not exactly what we want ...
 		case <-timer.C:
+			// Decide under the lock whether this timer still
+			// stands: a Rem() that got in first wins (even if
+			// both cases of the select were ready), and the id
+			// is free for reuse from the moment the timer
+			// fires, so a timer re-created under this id
+			// (perhaps by the handler of the message we are
+			// about to emit) is a different entry that we
+			// must not remove.
+			//
+			// See https://github.com/Comcast/sheens/issues/19
+			ts.Lock()
+			if current, have := ts.timers[id]; !have || current != te {
+				ts.Unlock()
+				return
+			}
+			delete(ts.timers, id)
+			ts.Unlock()
+
 			Logf("Timers firing %s", JS(ts))
 			if err := ts.emit(ctx, te.Message); err != nil {
 				ts.err(fmt.Errorf("Timers emit error %v id=%s", err, id))
 			}
-
-			// See https://github.com/Comcast/sheens/issues/19
-			ts.Lock()
-			delete(ts.timers, id)
-			ts.Unlock()
 		}
 	}()
 
